@@ -22,7 +22,7 @@ ASSUMPTIONS = ["the pessimistic set is taken as observed (its correctness is C11
                "bands: rectangles 1e-12 rel for domination (closed form), ellipsoids 2e-6+1e-4*mag"]
 N = {"quick": 190, "thorough": 6000}
 VARS = ["PaVeBa", "PaVeBaGP-IH", "PaVeBaGP-DE", "PartialGP-rect", "PartialGP-ell", "VOGP", "EpsilonPAL", "Auer", "Auer-emp", "VOGP", "EpsilonPAL"]
-REQUIRE = {"quick": {"must_discard": 300, "must_keep": 1500, "runs": 150, "vogp_ad_runs": 10, "frozen_witness_scenario_reached": 2,
+REQUIRE = {"quick": {"must_discard": 300, "must_keep": 1500, "runs": 150, "vogp_ad_runs": 10, "frozen_witness_scenario_reached": 2, "auer_certified_only_by_per_objective_sum": 10,
                      **{f"must_discard::{v}": 5 for v in set(VARS)}, **{f"must_keep::{v}": 20 for v in set(VARS)}}}
 TIMEOUT = {"quick": 1500, "thorough": 7200}
 
@@ -36,7 +36,7 @@ def make(rng, variant):
         over["K"] = min(over["K"], 6)
     case, order = runs.make_case(rng, variant, **over)
     if variant == "Auer-emp":
-        case["hetero"] = (np.sqrt(case["noise_var"]) * 10 ** rng.uniform(-1, 1, size=case["K"])).tolist()
+        case["hetero"] = (np.sqrt(case["noise_var"]) * 10 ** rng.uniform(-1, 1, size=(case["K"], case["m"]))).tolist()  # per (design, objective)
     case["max_rounds"] = 80
     return case, order
 
@@ -83,9 +83,27 @@ def ad_run(mon, rng):
             runchecks.check_discard(mon, tr, st)
 
 
+def directed_auer_emp(mon, rng):
+    """Auer with empirical widths under strongly heteroscedastic noise per (design, objective): the per-objective widths
+    differ, so 'summed widths in every objective' differs from 'sum of the two largest widths'.  (seeded/C02b-auer-max-of-widths)"""
+    K = int(rng.integers(3, 7))
+    m = int(rng.choice([2, 3]))
+    case, order = runs.make_case(rng, "Auer-emp", K=K, m=m, scale=10.0, ds_family=str(rng.choice(["random", "chain"])), eps=1.0,
+                                 contraction=float(rng.choice([1, 2, 4])), noise_var=1.0)
+    case["hetero"] = (10 ** rng.uniform(-0.7, 1.0, size=(K, m))).tolist()
+    case["max_rounds"] = 80
+    tr = runs.run_case(case, order, mon, max_extra_steps=0)
+    mon.count("runs")
+    for st in tr.steps:
+        if st["crash"] is None:
+            runchecks.check_discard(mon, tr, st)
+
+
 def shard(mon, tier, rng, shard_no, nshards):
     for _ in range(1 if tier == "quick" else 6):
         ad_run(mon, rng)
+    for _ in range(4 if tier == "quick" else 40):
+        directed_auer_emp(mon, rng)
     n = max(len(VARS), N[tier] // nshards)
     if shard_no == 0:
         directed_frozen_witness(mon)
